@@ -89,7 +89,9 @@ SYM = {"a": "plain", ":": "colon", " ": "SP", "\t": "HTAB", "\r": "CR", "\n": "L
 SMUGGLE = "\r\nGET /x HTTP/1.1\r\nHost: evil\r\n\r\n"
 TEMPL = ["\r\n", "\n", "\r", "\r\n ", "\n\t", "\r ", "%0d%0a", SMUGGLE, "\r\n" + SMUGGLE, "\r\nX-Inj: 1", "\nX-Inj: 1",
          "\rX-Inj: 1", " HTTP/1.1\r\nX-Inj: 1\r\n\r\nGET /y", "\x00", "\x7f", "\u20ac", "\u010a", "\u2028"]
-H2_ALPHA = ALPHA + ["A", "~", "(", "\x0b"]
+# ... plus code points whose case mappings land in ASCII (KELVIN SIGN lower-cases to 'k', LATIN CAPITAL I WITH DOT
+# ABOVE to 'i' + combining dot, LONG S upper-cases/case-folds to 's'): a name validated AFTER case folding lets them in
+H2_ALPHA = ALPHA + ["A", "~", "(", "\x0b", "\u212a", "\u0130", "\u017f"]
 
 
 def upto(n, alpha=ALPHA):
